@@ -368,6 +368,27 @@ def translate_function(header, body_lines):
                 if inc[src] is not None: s += '%s = t_%s; ' % (d, d)
         return s + 'goto L_%s;' % san(dst)
     allocas = []
+    # emit blocks in reverse post-order of the CFG: every non-back edge becomes a forward goto, so CBMC sees loop exits
+    # as forward jumps (its per-loop unwind counters are then reset on exit; with LLVM's own block order a rotated
+    # loop's exit can be a textually backward jump and inner-loop counters accumulate over outer iterations)
+    succ = {}
+    for lab, ins in blocks:
+        t = ins[-1] if ins else ''
+        succ[lab] = [x.strip('"') for x in re.findall(r'label %("[^"]*"|[-a-zA-Z$._0-9]+)', t)]
+    order_ = []; seen_ = set()
+    def dfs_(b):
+        stack = [(b, iter(succ.get(b, [])))]; seen_.add(b)
+        while stack:
+            n, it = stack[-1]
+            for m in it:
+                if m not in seen_ and m in succ:
+                    seen_.add(m); stack.append((m, iter(succ[m]))); break
+            else:
+                order_.append(n); stack.pop()
+    if blocks: dfs_(blocks[0][0])
+    rpo = list(reversed(order_))
+    bmap = dict((l, i) for l, i in blocks)
+    blocks = [[l, bmap[l]] for l in rpo] + [[l, i] for l, i in blocks if l not in seen_]
     for lab, ins in blocks:
         out.append('L_%s: ;' % san(lab))
         for s in ins:
